@@ -17,7 +17,9 @@ V: random grid tensors of rank 1..3 recorded as traces and validated by Quant_Tr
    actions with the logged payloads, all invariants on every state).
 """
 import copy
-import math
+import json
+import os
+import time
 from concurrent.futures import ThreadPoolExecutor
 from fractions import Fraction
 
@@ -165,13 +167,23 @@ def build_jobs(ck, exp):
   return jobs
 
 
-def n_cases(j):
+def cases(j):
+  """distinct replayed cases of a job: (dtype, layout, jit, column max, exponent) / matrix / tensor."""
   if j["kind"] == "cols":
-    return sum(len(c["es"]) for c in j["cols"]) if j["layout"] == "vec" else \
-        (j["L"] if j["layout"].startswith("square") else len(j["cols"]))
+    base = [j["dtype"], j["layout"], j["jit"]]
+    if j["layout"] == "vec":
+      return [base + [c["m"], e] for c in j["cols"] for e in c["es"]]
+    C = j["L"] if j["layout"].startswith("square") else len(j["cols"])
+    n = len(j["cols"])
+    return [base + [j["cols"][i % n]["m"], j["cols"][i % n]["es"][(i // n) % len(j["cols"][i % n]["es"])]]
+            for i in range(C)]
   if j["kind"] == "mats":
-    return len(j["items"])
-  return j["n"]
+    return [[j["dtype"], "mat", j["jit"], it["x"], it["ed"]] for it in j["items"]]
+  return [[j.get("dtype", "pass"), j["kind"], j.get("jit"), j["seed"], i, j.get("edge")] for i in range(j["n"])]
+
+
+def n_cases(j):
+  return len(cases(j))
 
 
 def job_desc(j):
@@ -188,6 +200,15 @@ def weight(j):
   if j["kind"] == "mats":
     return 3000 * len(j["items"])
   return 20000 * j["n"]
+
+
+def slim_job(j, v):
+  """the job to store in a replay file: for rank-1 sweeps only the offending column / exponent."""
+  if j["kind"] == "cols" and j["layout"] == "vec" and isinstance(v.get("detail"), dict) and "m" in v["detail"]:
+    cs = [dict(c, es=[v["detail"]["e"]]) for c in j["cols"] if c["m"] == v["detail"]["m"]]
+    if cs:
+      return dict(j, cols=cs)
+  return j
 
 
 def replay(ck, jobs, label):
@@ -211,12 +232,14 @@ def replay(ck, jobs, label):
       tot[k] += r["cols"][k]
     ck.calib("bucket_vs_exact_rel_in_2^-24", r["worst"]["bucket_rel_2^-24"], 4.0)
     ck.calib("dequantised_vs_exact_rel_in_2^-24_of_max", r["worst"]["dequant_rel_2^-24"], 4.0)
-    n = n_cases(j)
-    ck.count(n, key=["R", job_desc(j)])
+    cs = cases(j)
+    n = len(cs)
+    for c in cs:
+      ck.count(1, key=c)
     fail = False
     for v in r["viol"]:
       if ck.violation(v["key"], f"{label}: {v['clause']} in {v['tag'] or job_desc(j)}: {v['detail']}",
-                      {"job": job_desc(j), "violation": v}):
+                      {"job": slim_job(j, v), "violation": v}):
         fail = True
     if not fail:
       ck.traces_ok(n)
@@ -257,10 +280,28 @@ def judge(ck, dt, traces, label):
 
 
 def run(ck):
+  t0 = time.time()
+  ph = ck.cov.setdefault("phase_wall_s", {})
+  if getattr(ck, "replay", None):
+    saved = json.load(open(ck.replay))["case"]
+    if "job" in saved:
+      replay(ck, [saved["job"]], "replay of " + ck.replay)
+      ck.sample({"replayed_job": job_desc(saved["job"])})
+    elif "trace" in saved:
+      judge(ck, saved["trace"]["meta"]["dtype"], [saved["trace"]], "replay of " + ck.replay)
+      ck.sample({"replayed_trace": saved["trace"]["meta"]})
+    else:
+      raise core.MachineryError("replay file holds neither a job nor a trace")
+    return
   # ---- M ---------------------------------------------------------------------------------
-  model_check(ck)
+  if os.environ.get("VERIF_C11_SKIP_M") == "1":     # development only (mutation runs: the model is unchanged)
+    ck.assume("M leg skipped by VERIF_C11_SKIP_M=1")
+  else:
+    model_check(ck)
+  ph["M"] = round(time.time() - t0, 1)
   # ---- R ---------------------------------------------------------------------------------
   exp = export(ck)
+  ph["gen"] = round(time.time() - t0, 1)
   check_transcription(ck, exp)
   c = exp["int8"]["col"][254]
   ck.sample({"spec_lattice_column": {"N": 127, "m": 254, "lo[250:260]": c["lo"][250:260], "amb[:8]": c["amb"][:8],
@@ -268,6 +309,7 @@ def run(ck):
   ck.sample({"spec_matrix": next(it for it in exp["int16"]["smp"] if it["ed"])})
   jobs = build_jobs(ck, exp)
   tot = replay(ck, jobs, "Quant_Gen replay")
+  ph["replay"] = round(time.time() - t0, 1)
   ck.cov["replayed_entries"] = tot["entries"]
   ck.cov["near_tie_entries"] = tot["near_ties"]
   ck.cov["near_tie_entries_rounded_up"] = tot["near_ties_up"]
@@ -293,13 +335,16 @@ def run(ck):
               "quant|int8|payload_not_allowed" in keys)
   ck.selftest("R: corrupted expected diagonal is flagged", any(k.startswith("quant|int16|diagonal_not_") for k in keys))
   # ---- V ---------------------------------------------------------------------------------
+  ph["selftest_R"] = round(time.time() - t0, 1)
   traces = record(ck)
+  ph["record"] = round(time.time() - t0, 1)
   for dt in DTS:
     if not traces[dt]:
       raise core.MachineryError("no trace recorded")
     judge(ck, dt, traces[dt], "recorded round trip")
-  t0 = traces["int8"][0]
-  ck.sample({"recorded_trace": {"x": t0["x"], "ed": t0["ed"], "events": t0["events"], "meta": t0["meta"]}})
+  ph["validate"] = round(time.time() - t0, 1)
+  tr0 = traces["int8"][0]
+  ck.sample({"recorded_trace": {"x": tr0["x"], "ed": tr0["ed"], "events": tr0["events"], "meta": tr0["meta"]}})
   a = copy.deepcopy(next(t for t in traces["int16"] if len(t["events"]) == 5 and abs(t["events"][2]["q"][0][0]) < 32000))
   a["events"][2]["q"][0][0] += 2
   b = copy.deepcopy(a)
